@@ -269,4 +269,85 @@ BinProg(size, ofs, len) ==
   [f \in {"a.asm"} |-> <<DB(<<"1">>), L(<<"LB">>, "BINCLUDE", Cs(<<<<QUOTE, "B", ".", "BIN", QUOTE>>>> \o (IF ofs < 0 THEN <<>> ELSE <<N(ofs)>> \o (IF len < 0 THEN <<>> ELSE <<N(len)>>)))),
                          L(<<>>, "DW", <<"LB">>)>>]
 BinFile(size) == [f \in {"B.BIN"} |-> [i \in 1..size |-> (i * 7 + 3) % 256]]
+
+(***************************************************************************)
+(* TARGETS.  The constructs are "valid for all processors" (manual), and   *)
+(* the hand expansion of a construct is the same text on every target:     *)
+(* BINCLUDE lays the bytes of its window down one by one in file order     *)
+(* (DataLine("DB", w)), whatever order the target uses for its words, and  *)
+(* it leaves no trace: every statement AFTER it - in the same body, after  *)
+(* the enclosing construct has ended, in the including file - means what   *)
+(* it means in the hand expansion.  What the code distinguishes per target *)
+(* (set by the CPU switch function; read by WriteBytes / DreheCodes and the *)
+(* data pseudo ops; TurnWords saved + cleared + restored by CodeBINCLUDE): *)
+(*   turn  TurnWords: the code buffer holds host-order units that          *)
+(*         WriteBytes swaps on the way to the code file (Motorola order)   *)
+(*   lgran ListGran (1, 2, 4): width of the unit DreheCodes swaps; Intel   *)
+(*         style data statements override it to 1 (never swapped), machine *)
+(*         instructions and Motorola style DC.x use the target's value     *)
+(*   big   order in which the target's data statements store a word        *)
+(*   pad   word/long data on an odd address is preceded by a pad byte      *)
+(*   sizes statements the target has: B byte, W word, L long data,         *)
+(*         I a machine instruction of more than one byte                   *)
+(* Only byte-addressed targets: the manual counts BINCLUDE in bytes and is *)
+(* silent about targets whose address unit is wider.                       *)
+(***************************************************************************)
+Tgt(n, turn, lgran, big, pad, sizes) == [name |-> n, turn |-> turn, lgran |-> lgran, big |-> big, pad |-> pad, sizes |-> sizes]
+BWLI == {"B", "W", "L", "I"}
+BWI == {"B", "W", "I"}
+TargetsQuick ==
+  {Tgt("z80", FALSE, 1, FALSE, FALSE, BWLI), Tgt("68hc12", FALSE, 1, TRUE, FALSE, BWLI),
+   Tgt("msp430", FALSE, 2, FALSE, TRUE, BWI), Tgt("80960", FALSE, 4, FALSE, FALSE, BWLI),
+   Tgt("m16c", TRUE, 1, FALSE, FALSE, BWLI),
+   Tgt("68000", TRUE, 2, TRUE, TRUE, BWLI), Tgt("tms9900", TRUE, 2, TRUE, TRUE, BWI), Tgt("sh7000", TRUE, 2, TRUE, FALSE, BWLI),
+   Tgt("z8001", TRUE, 2, TRUE, FALSE, BWLI),
+   Tgt("am29000", TRUE, 4, TRUE, FALSE, BWLI), Tgt("ppc403", TRUE, 4, FALSE, FALSE, BWLI)}
+TargetsAll ==
+  TargetsQuick \cup
+  {Tgt("8086", FALSE, 1, FALSE, FALSE, BWLI), Tgt("8051", FALSE, 1, FALSE, FALSE, BWLI), Tgt("8096", FALSE, 1, FALSE, FALSE, BWLI),
+   Tgt("st7", FALSE, 1, TRUE, FALSE, BWLI), Tgt("80c166", FALSE, 1, FALSE, FALSE, BWLI),
+   Tgt("hd6475328", TRUE, 1, TRUE, FALSE, BWLI), Tgt("ns32016", TRUE, 1, TRUE, FALSE, BWLI),
+   Tgt("68008", TRUE, 2, TRUE, TRUE, BWLI), Tgt("h8/300", TRUE, 2, TRUE, FALSE, BWLI), Tgt("m16", TRUE, 2, FALSE, FALSE, BWLI)}
+\* WriteBytes distinguishes TurnWords x ListGran: every combination that occurs among the byte-addressed targets of
+\* the pinned tree is in the quick set already
+TargetClass(t) == <<t.turn, t.lgran>>
+TargetsCovered == {TargetClass(t) : t \in TargetsQuick} = BOOLEAN \X {1, 2, 4}
+                  /\ {TargetClass(t) : t \in TargetsAll} = BOOLEAN \X {1, 2, 4}
+
+\* data statement of a size, with the i-th value of that size (bytes of a value all different); I: the target's
+\* sample instruction (an ordinary statement without operands for the macro processor; spelled by the renderer)
+DL(v) == L(<<>>, "DL", v)
+INSN == L(<<>>, "INSN", <<>>)
+DataVal(sz, i) == CASE sz = "B" -> (IF i = 1 THEN "18" ELSE IF i = 2 THEN "52" ELSE "86")
+                    [] sz = "W" -> (IF i = 1 THEN "4660" ELSE IF i = 2 THEN "22136" ELSE "39612")
+                    [] OTHER    -> (IF i = 1 THEN "305419896" ELSE IF i = 2 THEN "1432778632" ELSE "591751049")
+Data(sz, v) == CASE sz = "B" -> DB(v) [] sz = "W" -> DW(v) [] sz = "L" -> DL(v) [] OTHER -> INSN
+
+\* BINCLUDE in a context, FOLLOWED by data: `inner` (N = nothing, B, W, L, I) right after it in the same body, `after`
+\* (B, W, L, I) once the enclosing construct has ended, a word before everything and a label that depends on all
+\* lengths at the end.  Window (ofs, len) as in BinProg; contexts that take the offset from a parameter use the
+\* window one byte further in their second expansion (ofs + 1 + len must fit the file).
+BinCtxs == {"TOP", "MACRO", "REPT", "IRP", "WHILE", "MREPT", "INCL", "RINCL"}
+BinCtxProg(ctx, ofs, len, inner, after) ==
+  LET file == <<QUOTE, "B", ".", "BIN", QUOTE>>
+      bin(o) == L(<<>>, "BINCLUDE", Cs(<<file>> \o (IF ofs < 0 THEN <<>> ELSE <<o>> \o (IF len < 0 THEN <<>> ELSE <<N(len)>>))))
+      dat(x) == IF inner = "N" THEN <<>> ELSE <<Data(inner, x)>>
+      v(i) == <<DataVal(IF inner \in {"N", "I"} THEN "B" ELSE inner, i)>>
+      o1 == N(Max(ofs, 0))   o2 == N(Max(ofs, 0) + 1)
+      use ==
+        CASE ctx = "TOP"   -> <<bin(o1)>> \o dat(v(1))
+          [] ctx = "MACRO" -> <<L(<<"M1">>, "MACRO", <<"OFS", ",", "VAL">>), bin(<<"OFS">>)>> \o dat(<<"VAL">>)
+                              \o <<ENDM, L(<<>>, "M1", Cs(<<o1, v(1)>>)), L(<<>>, "M1", Cs(<<o2, v(2)>>))>>
+          [] ctx = "REPT"  -> <<L(<<>>, "REPT", N(2)), bin(o1)>> \o dat(v(1)) \o <<ENDM>>
+          [] ctx = "IRP"   -> <<L(<<>>, "IRP", Cs(<<<<"OFS">>, o1, o2>>)), bin(<<"OFS">>)>> \o dat(v(1)) \o <<ENDM>>
+          [] ctx = "WHILE" -> <<L(<<"C1">>, "SET", N(2)), L(<<>>, "WHILE", <<"C1">>), bin(o1)>> \o dat(v(1))
+                              \o <<L(<<"C1">>, "SET", <<"C1", "-", "1">>), ENDM>>
+          [] ctx = "MREPT" -> <<L(<<"M1">>, "MACRO", <<"OFS", ",", "VAL">>), L(<<>>, "REPT", N(2)), bin(<<"OFS">>)>> \o dat(<<"VAL">>)
+                              \o <<ENDM>> \o dat(<<"VAL">>) \o <<ENDM, L(<<>>, "M1", Cs(<<o1, v(1)>>)), L(<<>>, "M1", Cs(<<o2, v(2)>>))>>
+          [] ctx = "INCL"  -> <<L(<<>>, "INCLUDE", <<"I1", ".", "INC">>)>>
+          [] OTHER         -> <<L(<<>>, "REPT", N(2)), L(<<>>, "INCLUDE", <<"I1", ".", "INC">>), ENDM>>
+  IN [f \in {"a.asm", "I1.INC"} |->
+        IF f = "a.asm" THEN <<DW(<<DataVal("W", 3)>>)>> \o use \o <<Data(after, <<DataVal(after, 3)>>), L(<<"LE">>, "DW", <<"LE">>)>>
+        ELSE <<bin(o1)>> \o dat(v(1))]
+BinCtxSizes(inner, after) == {"B", "W"} \cup {after} \cup (IF inner = "N" THEN {} ELSE {inner})
 =============================================================================
